@@ -34,14 +34,15 @@ type runner struct {
 	silentKey bool
 
 	// manual: the gated sweep
-	decoy     string
-	decoyN    int
+	decoys    [2]string // two decoy channels (distinct pubLock indexes), used alternately
+	decoyN    int       // the armed decoy key lives in decoys[decoyN%2]
 	g         *gate
 	held      bool
 	sweeping  bool
 	done      chan struct{}
 	collected []bcast
-	inWindow  bool // between phase 1 and phase 2
+	inWindow  bool   // between phase 1 and phase 2
+	gated     string // decoy channel the running sweep is parked on
 }
 
 func (r *runner) fail(prop, sig, what string, step any, si int) {
@@ -77,17 +78,26 @@ func (r *runner) sweepProp(m mismatch, real []bcast) string {
 
 // ---- manual sweep with the gate between the phases
 
+// The decoy: a key with a 1 ms TTL in a channel of its own. It is the first candidate of the next sweep, and phase 2 of
+// that sweep calls the event handler for its removal -- where the harness parks the sweeper (gate between phase 1 and
+// the phase 2 of the channel under test). The decoy of the NEXT sweep is published while the current sweep is parked,
+// i.e. inside its phase 1 / phase 2 window, into the other decoy channel (the parked sweeper holds the pubLock of the
+// current one): a TTL publish between the phases, like the model's own operations. Nothing else re-arms the sweeper,
+// so a deadline registered in the window and forgotten by the sweep shows as a sweep that does not even start.
+func (r *runner) decoy() string { return r.decoys[r.decoyN%2] }
+
 func (r *runner) publishDecoy() {
 	r.decoyN++
-	_, _ = r.b.Publish(bg, r.decoy, "d", centrifuge.MapPublishOptions{Data: []byte("0")})
-	r.rec.take(r.decoy)
+	_, _ = r.b.Publish(bg, r.decoy(), "d", centrifuge.MapPublishOptions{Data: []byte("0")})
+	r.rec.take(r.decoy())
 	time.Sleep(2500 * time.Microsecond) // its 1 ms TTL has passed before the next sweep can start
 }
 
 func (r *runner) startSweep(si int) bool {
 	r.g = &gate{entered: make(chan struct{}, 1), release: make(chan struct{})}
+	cur := r.decoy()
 	r.rec.mu.Lock()
-	r.rec.gates[r.decoy] = r.g
+	r.rec.gates[cur] = r.g
 	r.rec.mu.Unlock()
 	r.done = make(chan struct{})
 	go func(done chan struct{}) {
@@ -103,13 +113,21 @@ func (r *runner) startSweep(si int) bool {
 	select {
 	case <-r.g.entered:
 		r.held = true
+		r.gated = cur
+		r.publishDecoy() // the next sweep's decoy: a TTL publish inside this sweep's window
 		return true
 	case <-r.done:
 		r.held = false
-		if d := centrifuge.VerifMapPeek(r.b, r.decoy); d.Exists && len(d.State) == 0 {
+		d := centrifuge.VerifMapPeek(r.b, cur)
+		switch {
+		case d.Exists && len(d.State) == 0:
 			// the decoy key expired and was removed, but its removal never reached the event handler
 			r.fail("C24", "expiry:removal-not-broadcast", "an expired key was removed from the state by the sweep without any call of the event handler (decoy channel)", "ExpirePhase1", si)
-		} else {
+		case len(d.State) == 1 && d.State[0].ExpireAt != 0 && d.State[0].ExpireAt < time.Now().UnixMilli()-1:
+			r.fail("C24", "expiry:sweep-idle", fmt.Sprintf("a key whose TTL elapsed %d ms ago was not removed by a sweep iteration that ran afterwards: the sweeper is idle or scheduled later than a live deadline "+
+				"(the key was published with a TTL while the previous sweep was between phase 1 and the end of phase 2; decoy channel, nextKeyExpireCheck bookkeeping)",
+				time.Now().UnixMilli()-d.State[0].ExpireAt), "ExpirePhase1", si)
+		default:
 			r.drift("the sweep finished without passing the gate (decoy key was not collected)", si)
 		}
 		return false
@@ -136,10 +154,9 @@ func (r *runner) finishSweep(si int) bool {
 	}
 	r.sweeping = false
 	r.rec.mu.Lock()
-	delete(r.rec.gates, r.decoy)
+	delete(r.rec.gates, r.gated)
 	r.rec.mu.Unlock()
 	r.collected = append(r.collected, r.rec.take(r.ch)...)
-	r.publishDecoy()
 	return ok
 }
 
@@ -167,7 +184,7 @@ func (r *runner) run(beh []map[string]any) (completed int) {
 			now = vh.Int(step["now"])
 			time.Sleep(time.Until(r.mid(now)))
 			continue
-		case "SweepExpire", "SweepRemove":
+		case "SweepExpire", "SweepRemove", "SweepIdem":
 			continue // performed by the broker's own goroutines; checked before the next operation
 		case "ExpirePhase1":
 			if !r.manual {
@@ -322,10 +339,16 @@ func (r *runner) run(beh []map[string]any) (completed int) {
 					if w, ok := step["would"]; ok {
 						what += fmt.Sprintf(" (checks that would each suppress: %s; canonical order version, key mode, CAS)", vh.J(w))
 					}
+					if in19(got.Sup) || in19(vh.Str(exp["sup"])) {
+						r.fail("C19", sig, what, step, si) // the map half of C19 is decided here too
+					}
 					r.fail(winProp("C20"), sig, what, step, si)
 					return 0
 				}
 				if got.Off != vh.Int(exp["off"]) {
+					if got.Sup == "idempotency" {
+						r.fail("C19", lc+":idempotent-position", fmt.Sprintf("%s suppressed by idempotency returned offset %d, the original result has %d", act, got.Off, vh.Int(exp["off"])), step, si)
+					}
 					r.fail(winProp("C20"), lc+":offset", fmt.Sprintf("%s returned offset %d, reference %d", act, got.Off, vh.Int(exp["off"])), step, si)
 					return 0
 				}
@@ -488,6 +511,12 @@ func (r *runner) checkSnapshot(st map[string]any, prop, sig string, step any, si
 			continue
 		} else if m.kind == "deadline" {
 			r.fail("C24", sig+":deadline", m.what, step, si)
+		} else if m.kind == "ordered" {
+			r.fail("C21", sig+":ordered", m.what, step, si) // the sort order of the pages hangs on this flag
+			r.fail(prop, sig+":ordered", m.what, step, si)
+		} else if m.kind == "version" {
+			r.fail("C19", sig+":version", m.what, step, si)
+			r.fail(prop, sig+":version", m.what, step, si)
 		} else {
 			r.fail(prop, sig+":"+m.kind, m.what, step, si)
 		}
@@ -495,6 +524,8 @@ func (r *runner) checkSnapshot(st map[string]any, prop, sig string, step any, si
 	}
 	return true
 }
+
+func in19(sup string) bool { return sup == "idempotency" || sup == "version" }
 
 func hard(ms []mismatch) bool {
 	for _, m := range ms {
@@ -548,7 +579,12 @@ func replayAuto(in json.RawMessage, res *vh.Result) error {
 }
 
 func replayWave(b *centrifuge.MemoryMapBroker, rec *recorder, reg *registry, res *vh.Result, behs [][]map[string]any, off int, tick time.Duration) {
-	base := time.Now().Truncate(time.Second).Add(2 * time.Second)
+	// operations run at tick + 0.5 s; the broker's cleaners (started at registeredAt, period ~1 s) are placed at about
+	// tick + 0.75 s: after the operations of the tick in which a deadline falls, well before those of the next tick
+	base := registeredAt.Add(250 * time.Millisecond)
+	for time.Until(base) < 1200*time.Millisecond {
+		base = base.Add(time.Second)
+	}
 	var wg sync.WaitGroup
 	for i, beh := range behs {
 		bi := off + i
@@ -600,16 +636,19 @@ func replayManual(in json.RawMessage, res *vh.Result) error {
 			cfg := cfgOf(vh.Map(beh[0]["cf"]))
 			ch := fmt.Sprintf("ex%d_%d", vh.Seed(), bi)
 			reg.set(ch, cfg.options(tick))
-			decoy := ""
-			for i := 0; ; i++ {
-				decoy = fmt.Sprintf("decoy%d_%d_%d", vh.Seed(), bi, i)
-				if centrifuge.VerifMapPubLockIndex(decoy) != centrifuge.VerifMapPubLockIndex(ch) {
-					break
+			var decoys [2]string
+			used := map[int]bool{centrifuge.VerifMapPubLockIndex(ch): true}
+			for d, i := 0, 0; d < 2; i++ {
+				name := fmt.Sprintf("decoy%d_%d_%d", vh.Seed(), bi, i)
+				if ix := centrifuge.VerifMapPubLockIndex(name); !used[ix] {
+					used[ix] = true
+					decoys[d] = name
+					reg.set(name, centrifuge.MapChannelOptions{Mode: centrifuge.MapModeEphemeral, KeyTTL: time.Millisecond})
+					d++
 				}
 			}
-			reg.set(decoy, centrifuge.MapChannelOptions{Mode: centrifuge.MapModeEphemeral, KeyTTL: time.Millisecond})
 			r := &runner{b: b, rec: rec, reg: reg, ch: ch, cfg: cfg, ep: newEpochs(), base: time.Now().Add(5 * time.Millisecond).Add(-tick / 2),
-				tick: tick, manual: true, res: res, bi: bi, decoy: decoy}
+				tick: tick, manual: true, res: res, bi: bi, decoys: decoys}
 			completed := r.run(beh)
 			if r.failed {
 				completed = 0
